@@ -48,3 +48,58 @@ package ancestor
 //@   loop 2 hint assert inL(options, len(options), parents[len(parents)-1]) && !inL(iterold(parents), len(parents)-1, parents[len(parents)-1])
 //@   loop 2 hint use inL_ext2(parents, iterold(parents), len(iterold(parents)))
 //@   loop 2 hint use inL_mono(iterold(parents), len(existingParents), len(iterold(parents)), parents[len(parents)-1])
+//@
+//@ // ---- quorum indexer (C20) ----
+//@ const ForkSeq = 2147483646
+//@ funcfield QuorumIndexer.diffMetricFn
+//@   pure
+//@ spec seqv(s dagidx.Seq) int = ite(s.IsForkDetected(), ForkSeq, s.Seq())
+//@ func seqOf
+//@   requires seq != nil
+//@   ensures  result == seqv(seq)
+//@
+//@ func NewMatrix
+//@   requires rows * cols <= 4294967295
+//@   ensures  result.columns == cols && len(result.buffer) == rows * cols && fresh(result.buffer)
+//@ func (Matrix).Row
+//@   requires (i + 1) * m.columns <= len(m.buffer) && (i + 1) * m.columns <= 4294967295
+//@   ensures  len(result) == m.columns && arrof(result) == arrof(m.buffer)
+//@   ensures  forall(j, 0, m.columns, result[j] == m.buffer[i * m.columns + j])
+//@
+//@ // representation invariant of the indexer: n validators, an n x n matrix, two vectors of length n
+//@ inv QuorumIndexer qi(h):
+//@   h != nil && h.dagi != nil && h.diffMetricFn != nil && valid(h.validators) && len(h.validators.values) >= 1 &&
+//@   len(h.validators.values) <= 65535 && h.globalMatrix.columns == len(h.validators.values) &&
+//@   len(h.globalMatrix.buffer) == len(h.validators.values) * len(h.validators.values) &&
+//@   len(h.selfParentSeqs) == len(h.validators.values) && len(h.globalMedianSeqs) == len(h.validators.values) &&
+//@   arrof(h.selfParentSeqs) != arrof(h.globalMatrix.buffer) && arrof(h.globalMedianSeqs) != arrof(h.globalMatrix.buffer) && arrof(h.globalMedianSeqs) != arrof(h.selfParentSeqs)
+//@
+//@ func (*QuorumIndexer).ProcessEvent
+//@   requires qi(h) && event != nil
+//@   modifies h.globalMatrix.buffer[*], h.selfParentSeqs[*], h.dirty
+//@   ensures  qi(h) && h.dirty
+//@   ensures  [column] forall(v, 0, len(h.validators.values), h.globalMatrix.buffer[v * len(h.validators.values) + h.validators.cache.indexes[event.Creator()]] == seqv(h.dagi.GetMergedHighestBefore(event.ID()).Get(v)))
+//@   ensures  [others] forall(v, 0, len(h.validators.values), forall(c, 0, len(h.validators.values), c != h.validators.cache.indexes[event.Creator()] ==> h.globalMatrix.buffer[v * len(h.validators.values) + c] == old(h.globalMatrix.buffer[v * len(h.validators.values) + c])))
+//@   ensures  [self] selfEvent ==> forall(v, 0, len(h.validators.values), h.selfParentSeqs[v] == seqv(h.dagi.GetMergedHighestBefore(event.ID()).Get(v)))
+//@   ensures  [notself] !selfEvent ==> forall(v, 0, len(h.validators.values), h.selfParentSeqs[v] == old(h.selfParentSeqs[v]))
+//@   loop 1 modifies h.globalMatrix.buffer[*], h.selfParentSeqs[*]
+//@   loop 1 invariant 0 <= validatorIdx && validatorIdx <= len(h.validators.values)
+//@   loop 1 invariant forall(v, 0, validatorIdx, h.globalMatrix.buffer[v * len(h.validators.values) + creatorIdx] == seqv(vecClock.Get(v)))
+//@   loop 1 invariant forall(v, 0, len(h.validators.values), forall(c, 0, len(h.validators.values), c != creatorIdx ==> h.globalMatrix.buffer[v * len(h.validators.values) + c] == old(h.globalMatrix.buffer[v * len(h.validators.values) + c])))
+//@   loop 1 invariant selfEvent ==> forall(v, 0, validatorIdx, h.selfParentSeqs[v] == seqv(vecClock.Get(v)))
+//@   loop 1 invariant !selfEvent ==> forall(v, 0, len(h.validators.values), h.selfParentSeqs[v] == old(h.selfParentSeqs[v]))
+//@
+//@ // msum(h, id, n): the metric accumulated over the first n validators (uint64 arithmetic)
+//@ spec msum(h *QuorumIndexer, id hash.Event, n int) int = ite(n <= 0, 0, (msum(h, id, n-1) + h.diffMetricFn(h.globalMedianSeqs[n-1], h.selfParentSeqs[n-1], seqv(h.dagi.GetMergedHighestBefore(id).Get(n-1)), n-1)) % 18446744073709551616)
+//@
+//@ trusted func (*QuorumIndexer).recacheState
+//@   requires qi(h)
+//@   modifies h.globalMedianSeqs[*], h.searchStrategy, h.dirty
+//@   ensures  !h.dirty
+//@
+//@ func (*QuorumIndexer).GetMetricOf
+//@   requires qi(h)
+//@   modifies h.globalMedianSeqs[*], h.searchStrategy, h.dirty
+//@   ensures  result == msum(h, id, len(h.validators.values)) && !h.dirty
+//@   ensures  !old(h.dirty) ==> forall(v, 0, len(h.globalMedianSeqs), h.globalMedianSeqs[v] == old(h.globalMedianSeqs[v]))
+//@   loop 1 invariant 0 <= validatorIdx && validatorIdx <= len(h.validators.values) && metric == msum(h, id, validatorIdx)
